@@ -3,7 +3,7 @@
    No rowids, positions, versions, cached lengths or stored-but-expired keys:
    every operation first forgets the entries whose expiry has been reached.
    No proofs here. *)
-From Redka Require Import Base Db Glob ImplString Ops.
+From Redka Require Import Base Db Glob ImplString ImplSet ImplZSet Ops.
 
 Inductive aval :=
 | AVStr (s : bytes)
@@ -144,6 +144,412 @@ Definition spec_rename_nx (now : Z) (s : sstate) (k nk : bytes) : sstate * out :
       end
   end.
 
+
+(* ---------- generic shape of the typed operations ---------- *)
+
+(* the value of type [t] held under [k]; a missing key or a key of another
+   type reads as "nothing" *)
+Definition spec_list (s : sstate) (k : bytes) : option (list bytes) :=
+  match sget s k with Some (mkEntry (AVList l) _) => Some l | _ => None end.
+Definition spec_set_ (s : sstate) (k : bytes) : option (list bytes) :=
+  match sget s k with Some (mkEntry (AVSet l) _) => Some l | _ => None end.
+Definition spec_hash (s : sstate) (k : bytes) : option (list (bytes * bytes)) :=
+  match sget s k with Some (mkEntry (AVHash l) _) => Some l | _ => None end.
+Definition spec_zset (s : sstate) (k : bytes) : option (list (bytes * float)) :=
+  match sget s k with Some (mkEntry (AVZSet l) _) => Some l | _ => None end.
+
+Definition or_nil {A} (o : option (list A)) : list A := match o with Some l => l | None => [] end.
+
+(* store a new value under [k], keeping the expiry the key already had *)
+Definition sput_val (s : sstate) (k : bytes) (v : aval) : sstate :=
+  sput k (mkEntry v (keep_exp s k)) s.
+
+(* ---------- lists: an ordered sequence ---------- *)
+
+(* Redis index rules for a range over a sequence of length n: negative indexes
+   count from the tail, bounds are clamped, an inverted range is empty *)
+Definition redis_range (n start stop : Z) : option (Z * Z) :=
+  let s0 := if start <? 0 then Z.max (n + start) 0 else start in
+  let e0 := if stop <? 0 then n + stop else stop in
+  let e1 := Z.min e0 (n - 1) in
+  if (e1 <? s0) || (n <=? s0) || (e1 <? 0) then None else Some (s0, e1 - s0 + 1).
+
+Definition slice {A} (l : list A) (start stop : Z) : list A :=
+  match redis_range (zlen l) start stop with
+  | Some (off, cnt) => ztake cnt (zdrop off l)
+  | None => []
+  end.
+
+Definition norm_index (n idx : Z) : option Z :=
+  let i := if idx <? 0 then n + idx else idx in
+  if (0 <=? i) && (i <? n) then Some i else None.
+
+Fixpoint remove_first_n (e : bytes) (n : Z) (l : list bytes) : list bytes :=
+  match l with
+  | [] => []
+  | x :: r => if (0 <? n) && String.eqb x e then remove_first_n e (n - 1) r
+              else x :: remove_first_n e n r
+  end.
+Definition count_occ (e : bytes) (l : list bytes) : Z :=
+  zlen (filter (String.eqb e) l).
+
+Fixpoint insert_at_pivot (pivot e : bytes) (after : bool) (l : list bytes) : option (list bytes) :=
+  match l with
+  | [] => None
+  | x :: r =>
+      if String.eqb x pivot then Some (if after then x :: e :: r else e :: x :: r)
+      else match insert_at_pivot pivot e after r with
+           | Some r' => Some (x :: r')
+           | None => None
+           end
+  end.
+
+Fixpoint set_nth (i : Z) (e : bytes) (l : list bytes) : list bytes :=
+  match l with
+  | [] => []
+  | x :: r => if i <=? 0 then e :: r else x :: set_nth (i - 1) e r
+  end.
+
+Definition spec_push (s : sstate) (k : bytes) (v : value) (front : bool) : sstate * out :=
+  match bytes_of_value v with
+  | None => (s, out_err EValueType)
+  | Some b =>
+      if other_type s k 2 then (s, out_err EKeyType) else
+      let l := or_nil (spec_list s k) in
+      let l' := if front then b :: l else l ++ [b] in
+      (sput_val s k (AVList l'), out_ok (VI (zlen l')))
+  end.
+
+Definition spec_pop (s : sstate) (k : bytes) (back : bool) : sstate * out :=
+  match spec_list s k with
+  | None | Some [] => (s, out_err ENotFound)
+  | Some l =>
+      if back then
+        match rev l with
+        | e :: r => (sput_val s k (AVList (rev r)), out_ok (VS e))
+        | [] => (s, out_err ENotFound)
+        end
+      else
+        match l with
+        | e :: r => (sput_val s k (AVList r), out_ok (VS e))
+        | [] => (s, out_err ENotFound)
+        end
+  end.
+
+Definition spec_pop_push (s : sstate) (src dest : bytes) : sstate * out :=
+  let '(s1, r) := spec_pop s src true in
+  match o_err r, o_val r with
+  | None, VS e =>
+      if other_type s1 dest 2 then (s, out_both (VS e) EKeyType)
+      else (fst (spec_push s1 dest (ABytes e) true), out_ok (VS e))
+  | _, _ => (s, r)
+  end.
+
+Definition spec_linsert (s : sstate) (k : bytes) (pivot elem : value) (after : bool) : sstate * out :=
+  match bytes_of_value pivot, bytes_of_value elem with
+  | Some p, Some e =>
+      match spec_list s k with
+      | None => (s, out_both (VI 0) ENotFound)
+      | Some l =>
+          match insert_at_pivot p e after l with
+          | Some l' => (sput_val s k (AVList l'), out_ok (VI (zlen l')))
+          | None => (s, out_both (VI (-1)) ENotFound)
+          end
+      end
+  | _, _ => (s, out_both (VI 0) EValueType)
+  end.
+
+Definition spec_lset (s : sstate) (k : bytes) (idx : Z) (v : value) : sstate * out :=
+  match bytes_of_value v with
+  | None => (s, out_err EValueType)
+  | Some e =>
+      match spec_list s k with
+      | None => (s, out_err ENotFound)
+      | Some l =>
+          match norm_index (zlen l) idx with
+          | Some i => (sput_val s k (AVList (set_nth i e l)), out_ok VNone)
+          | None => (s, out_err ENotFound)
+          end
+      end
+  end.
+
+Definition spec_ldelete (s : sstate) (k : bytes) (v : value) (count : option Z) (back : bool)
+  : sstate * out :=
+  match count with
+  | Some c => if c <=? 0 then (s, out_ok (VI 0)) else
+      match bytes_of_value v with
+      | None => (s, out_err EValueType)
+      | Some e =>
+          match spec_list s k with
+          | None => (s, out_ok (VI 0))
+          | Some l =>
+              let l' := if back then rev (remove_first_n e c (rev l)) else remove_first_n e c l in
+              let n := zlen l - zlen l' in
+              if n =? 0 then (s, out_ok (VI 0)) else (sput_val s k (AVList l'), out_ok (VI n))
+          end
+      end
+  | None =>
+      match bytes_of_value v with
+      | None => (s, out_err EValueType)
+      | Some e =>
+          match spec_list s k with
+          | None => (s, out_ok (VI 0))
+          | Some l =>
+              let n := count_occ e l in
+              if n =? 0 then (s, out_ok (VI 0))
+              else (sput_val s k (AVList (filter (fun x => negb (String.eqb x e)) l)), out_ok (VI n))
+          end
+      end
+  end.
+
+Definition spec_ltrim (s : sstate) (k : bytes) (start stop : Z) : sstate * out :=
+  match spec_list s k with
+  | None => (s, out_ok (VI 0))
+  | Some l =>
+      let l' := slice l start stop in
+      let n := zlen l - zlen l' in
+      if n =? 0 then (s, out_ok (VI 0)) else (sput_val s k (AVList l'), out_ok (VI n))
+  end.
+
+(* ---------- sets ---------- *)
+
+Definition add_members (l : list bytes) (new : list bytes) : list bytes :=
+  fold_left (fun acc e => if str_in e acc then acc else acc ++ [e]) new l.
+
+Fixpoint values_of (vs : list value) : option (list bytes) :=
+  match vs with
+  | [] => Some []
+  | v :: r => match bytes_of_value v, values_of r with
+              | Some b, Some bs => Some (b :: bs)
+              | _, _ => None
+              end
+  end.
+
+Definition spec_sadd (s : sstate) (k : bytes) (vs : list value) : sstate * out :=
+  match values_of vs with
+  | None => (s, out_err EValueType)
+  | Some es =>
+      if other_type s k 3 then (s, out_err EKeyType) else
+      let l := or_nil (spec_set_ s k) in
+      let l' := add_members l es in
+      (sput_val s k (AVSet l'), out_ok (VI (zlen l' - zlen l)))
+  end.
+
+Definition spec_sdelete (s : sstate) (k : bytes) (vs : list value) : sstate * out :=
+  match values_of vs with
+  | None => (s, out_err EValueType)
+  | Some es =>
+      match spec_set_ s k with
+      | None => (s, out_ok (VI 0))
+      | Some l =>
+          let l' := filter (fun e => negb (str_in e es)) l in
+          let n := zlen l - zlen l' in
+          if n =? 0 then (s, out_ok (VI 0)) else (sput_val s k (AVSet l'), out_ok (VI n))
+      end
+  end.
+
+(* the mathematical result: a missing key or a key of another type is the empty set *)
+Definition members (s : sstate) (k : bytes) : list bytes := or_nil (spec_set_ s k).
+Definition spec_alg (a : setalg) (s : sstate) (keys : list bytes) : list bytes :=
+  match keys with
+  | [] => []
+  | first :: others =>
+      match a with
+      | AUnion => fold_left (fun acc k => add_members acc (members s k)) keys []
+      | AInter => fold_left (fun acc k => filter (fun e => str_in e (members s k)) acc) others (members s first)
+      | ADiff => fold_left (fun acc k => filter (fun e => negb (str_in e (members s k))) acc) others (members s first)
+      end
+  end.
+
+Definition spec_sstore (a : setalg) (s : sstate) (dest : bytes) (keys : list bytes) : sstate * out :=
+  match keys with
+  | [] => (s, out_ok (VI 0))
+  | _ =>
+      if other_type s dest 3 then (s, out_err EKeyType) else
+      let r := spec_alg a s keys in
+      (sput_val s dest (AVSet r), out_ok (VI (zlen r)))
+  end.
+
+Definition spec_smove (s : sstate) (src dest : bytes) (v : value) : sstate * out :=
+  match bytes_of_value v with
+  | None => (s, out_err EValueType)
+  | Some e =>
+      if negb (str_in e (members s src)) then (s, out_err ENotFound) else
+      if other_type s dest 3 then (s, out_err EKeyType) else
+      let s1 := sput_val s src (AVSet (filter (fun x => negb (String.eqb x e)) (members s src))) in
+      (sput_val s1 dest (AVSet (add_members (members s1 dest) [e])), out_ok VNone)
+  end.
+
+(* ---------- hashes ---------- *)
+
+Definition hget (l : list (bytes * bytes)) (f : bytes) : option bytes := opt_lookup l f.
+Definition hput (l : list (bytes * bytes)) (f v : bytes) : list (bytes * bytes) :=
+  if existsb (fun p => String.eqb (fst p) f) l
+  then map (fun p => if String.eqb (fst p) f then (f, v) else p) l
+  else l ++ [(f, v)].
+
+Definition fields_of (s : sstate) (k : bytes) : list (bytes * bytes) := or_nil (spec_hash s k).
+
+Definition spec_hset_many (s : sstate) (k : bytes) (items : list (bytes * value)) : sstate * out :=
+  match items with [] => (s, out_ok (VI 0)) | _ =>
+  if negb (forallb (fun fv => is_value_type (snd fv)) items) then (s, out_err EValueType) else
+  if other_type s k 4 then (s, out_err EKeyType) else
+  let l := fields_of s k in
+  let created := zlen (filter (fun fv => match hget l (fst fv) with None => true | Some _ => false end) items) in
+  let l' := fold_left (fun acc fv => match bytes_of_value (snd fv) with
+                                     | Some b => hput acc (fst fv) b
+                                     | None => acc
+                                     end) items l in
+  (sput_val s k (AVHash l'), out_ok (VI created))
+  end.
+
+Definition spec_hset (s : sstate) (k f : bytes) (v : value) : sstate * out :=
+  let '(s', r) := spec_hset_many s k [(f, v)] in
+  match o_err r, o_val r with
+  | None, VI n => (s', out_ok (VB (n =? 1)))
+  | _, _ => (s', r)
+  end.
+
+Definition spec_hset_nx (s : sstate) (k f : bytes) (v : value) : sstate * out :=
+  if negb (is_value_type v) then (s, out_err EValueType) else
+  match hget (fields_of s k) f with
+  | Some _ => (s, out_ok (VB false))
+  | None => let '(s', r) := spec_hset_many s k [(f, v)] in
+            match o_err r with None => (s', out_ok (VB true)) | Some _ => (s', r) end
+  end.
+
+Definition spec_hdelete (s : sstate) (k : bytes) (fields : list bytes) : sstate * out :=
+  match spec_hash s k with
+  | None => (s, out_ok (VI 0))
+  | Some l =>
+      let l' := filter (fun p => negb (str_in (fst p) fields)) l in
+      let n := zlen l - zlen l' in
+      if n =? 0 then (s, out_ok (VI 0)) else (sput_val s k (AVHash l'), out_ok (VI n))
+  end.
+
+Definition spec_hincr (s : sstate) (k f : bytes) (delta : Z) : sstate * out :=
+  let cur := match hget (fields_of s k) f with Some v => v | None => "" end in
+  match value_int cur with
+  | None => (s, out_err EValueType)
+  | Some n =>
+      if other_type s k 4 then (s, out_err EKeyType) else
+      let nv := n + delta in
+      (sput_val s k (AVHash (hput (fields_of s k) f (itoa nv))), out_ok (VI nv))
+  end.
+
+Definition spec_hincr_float (s : sstate) (k f : bytes) (delta : float)
+           (parsed : list (bytes * option float)) (sumtext : bytes) : sstate * out :=
+  let cur := match hget (fields_of s k) f with Some v => v | None => "" end in
+  let p := match cur with
+           | EmptyString => Some zero
+           | _ => match opt_lookup parsed cur with Some r => r | None => None end
+           end in
+  match p with
+  | None => (s, out_err EValueType)
+  | Some x =>
+      if other_type s k 4 then (s, out_err EKeyType) else
+      let nv := (x + delta)%float in
+      (sput_val s k (AVHash (hput (fields_of s k) f sumtext)), out_ok (VF nv))
+  end.
+
+Definition pair_rv (p : bytes * bytes) : rv := VL [VS (fst p); VS (snd p)].
+
+(* ---------- sorted sets ---------- *)
+
+Definition zmembers (s : sstate) (k : bytes) : list (bytes * float) := or_nil (spec_zset s k).
+Definition zget (l : list (bytes * float)) (e : bytes) : option float := opt_lookup l e.
+Definition zput (l : list (bytes * float)) (e : bytes) (sc : float) : list (bytes * float) :=
+  if existsb (fun p => String.eqb (fst p) e) l
+  then map (fun p => if String.eqb (fst p) e then (e, sc) else p) l
+  else l ++ [(e, sc)].
+
+(* the order every rank/score query is defined by: score, then member bytes *)
+Definition zpair_le (a b : bytes * float) : bool :=
+  (snd a <? snd b)%float || ((snd a =? snd b)%float && String.leb (fst a) (fst b)).
+Definition zorder (desc : bool) (l : list (bytes * float)) : list (bytes * float) :=
+  isort (if desc then (fun a b => zpair_le b a) else zpair_le) l.
+Definition zitem_rv (p : bytes * float) : rv := VL [VS (fst p); VF (snd p)].
+Definition in_score (lo hi : float) (p : bytes * float) : bool :=
+  (lo <=? snd p)%float && (snd p <=? hi)%float.
+Definition is_nanf (f : float) : bool := negb (f =? f)%float.
+
+(* stored scores: -0 and +0 are the same score *)
+Definition norm_score (f : float) : float := if (f =? zero)%float then zero else f.
+
+Definition spec_zadd_many (s : sstate) (k : bytes) (items : list (value * float)) : sstate * out :=
+  match items with [] => (s, out_ok (VI 0)) | _ =>
+  match values_of (map fst items) with
+  | None => (s, out_err EValueType)
+  | Some es =>
+      if other_type s k 5 then (s, out_err EKeyType) else
+      let l := zmembers s k in
+      let created := zlen (filter (fun e => match zget l e with None => true | Some _ => false end) es) in
+      let l' := fold_left (fun acc p => zput acc (fst p) (norm_score (snd p))) (combine es (map snd items)) l in
+      (sput_val s k (AVZSet l'), out_ok (VI created))
+  end end.
+
+Definition spec_zadd (s : sstate) (k : bytes) (v : value) (sc : float) : sstate * out :=
+  let '(s', r) := spec_zadd_many s k [(v, sc)] in
+  match o_err r, o_val r with
+  | None, VI n => (s', out_ok (VB (n =? 1)))
+  | _, _ => (s', r)
+  end.
+
+Definition spec_zincr (s : sstate) (k : bytes) (v : value) (delta : float) : sstate * out :=
+  match bytes_of_value v with
+  | None => (s, out_err EValueType)
+  | Some e =>
+      if other_type s k 5 then (s, out_err EKeyType) else
+      let l := zmembers s k in
+      let nv := norm_score (match zget l e with Some old => (old + delta)%float | None => delta end) in
+      (sput_val s k (AVZSet (zput l e nv)), out_ok (VF nv))
+  end.
+
+Definition spec_zdelete_where (s : sstate) (k : bytes) (gone : bytes * float -> bool) : sstate * out :=
+  match spec_zset s k with
+  | None => (s, out_ok (VI 0))
+  | Some l =>
+      let l' := filter (fun p => negb (gone p)) l in
+      let n := zlen l - zlen l' in
+      if n =? 0 then (s, out_ok (VI 0)) else (sput_val s k (AVZSet l'), out_ok (VI n))
+  end.
+
+(* the segment of ranks [start, stop] of the sorted sequence; negative ranks
+   select nothing (documented), an inverted range selects nothing *)
+Definition rank_segment {A} (l : list A) (start stop : Z) : list A :=
+  if (start <? 0) || (stop <? 0) || (stop <? start) then []
+  else ztake (stop - start + 1) (zdrop start l).
+
+Definition dedup_keys := dedup.
+
+(* union / intersection of the member sets of the distinct keys listed, with
+   the scores aggregated over those keys *)
+Definition zagg2 (g : zagg) (a b : float) : float :=
+  match g with
+  | GSum => (a + b)%float
+  | GMin => if (b <? a)%float then b else a
+  | GMax => if (a <? b)%float then b else a
+  end.
+Definition spec_zalg (inter : bool) (g : zagg) (s : sstate) (keys : list bytes) : list (bytes * float) :=
+  let ks := dedup_keys keys in
+  let all := fold_left (fun acc k =>
+                          fold_left (fun acc2 p =>
+                                       match zget acc2 (fst p) with
+                                       | Some old => zput acc2 (fst p) (zagg2 g old (snd p))
+                                       | None => zput acc2 (fst p) (snd p)
+                                       end) (zmembers s k) acc) ks [] in
+  let keep := if inter
+              then filter (fun p => forallb (fun k => match zget (zmembers s k) (fst p) with
+                                                      | Some _ => true | None => false end) ks) all
+              else all in
+  match ks with [] => [] | _ => zorder false (map (fun p => (fst p, norm_score (snd p))) keep) end.
+
+Definition spec_zstore (inter : bool) (g : zagg) (s : sstate) (dest : bytes) (keys : list bytes)
+  : sstate * out :=
+  if other_type s dest 5 then (s, out_err EKeyType) else
+  let r := spec_zalg inter g s keys in
+  (sput_val s dest (AVZSet r), out_ok (VI (zlen r))).
+
 (* How a specification result is compared with the faithful one *)
 Inductive cmpmode :=
 | CmpFull          (* result (after projection) and state *)
@@ -155,6 +561,11 @@ Definition spec_mode (in_tx : bool) (o : op) : cmpmode :=
   | KDeleteExpired _ => CmpState
   | KScan _ _ _ _ => CmpState
   | KDeleteAll => if in_tx then CmpNone else CmpFull
+  | EScan _ _ _ _ | HScan _ _ _ _ | ZScan _ _ _ _ => CmpState
+  (* a NaN score is outside the specification's score universe *)
+  | ZAdd _ _ sc => if is_nanf sc then CmpNone else CmpFull
+  | ZAddMany _ items => if existsb (fun p => is_nanf (snd p)) items then CmpNone else CmpFull
+  | ZIncr _ _ dl => if is_nanf dl then CmpNone else CmpFull
   | _ => CmpFull
   end.
 
@@ -231,6 +642,121 @@ Definition spec_step (now : Z) (o : op) (s0 : sstate) : sstate * out :=
   | SSetExpires k v ttl => spec_set s k v (if 0 <? ttl then Some (now + ttl) else None)
   | SSetMany items => spec_set_many s items
   | SSetWith k v calls => spec_set_with now s k v (setopts_of calls)
+  (* lists *)
+  | LDelete k v => spec_ldelete s k v None false
+  | LDeleteBack k v n => spec_ldelete s k v (Some n) true
+  | LDeleteFront k v n => spec_ldelete s k v (Some n) false
+  | LGet k i =>
+      let l := or_nil (spec_list s k) in
+      match norm_index (zlen l) i with
+      | Some j => match hd_error (zdrop j l) with
+                  | Some e => (s, out_ok (VS e))
+                  | None => (s, out_err ENotFound)
+                  end
+      | None => (s, out_err ENotFound)
+      end
+  | LInsertAfter k p e => spec_linsert s k p e true
+  | LInsertBefore k p e => spec_linsert s k p e false
+  | LLen k => (s, out_ok (VI (zlen (or_nil (spec_list s k)))))
+  | LPopBack k => spec_pop s k true
+  | LPopBackPushFront a b => spec_pop_push s a b
+  | LPopFront k => spec_pop s k false
+  | LPushBack k v => spec_push s k v false
+  | LPushFront k v => spec_push s k v true
+  | LRange k a b => (s, out_ok (VL (map VS (slice (or_nil (spec_list s k)) a b))))
+  | LSet k i v => spec_lset s k i v
+  | LTrim k a b => spec_ltrim s k a b
+  (* sets *)
+  | EAdd k vs => spec_sadd s k vs
+  | EDelete k vs => spec_sdelete s k vs
+  | EAlg a ks => (s, out_ok (VU (map VS (spec_alg a s ks))))
+  | EStore a dst ks => spec_sstore a s dst ks
+  | EExists k v =>
+      match bytes_of_value v with
+      | Some e => (s, out_ok (VB (str_in e (members s k))))
+      | None => (s, out_err EValueType)
+      end
+  | EItems k => (s, out_ok (VU (map VS (members s k))))
+  | ELen k => (s, out_ok (VI (zlen (members s k))))
+  | EMove a b v => spec_smove s a b v
+  | EPop k c =>
+      match c with
+      | Some e => if str_in e (members s k)
+                  then (sput_val s k (AVSet (filter (fun x => negb (String.eqb x e)) (members s k))), out_ok (VS e))
+                  else (s, out_err ENotFound)
+      | None => (s, out_err ENotFound)
+      end
+  | ERandom k c =>
+      match c with
+      | Some e => if str_in e (members s k) then (s, out_ok (VS e)) else (s, out_err ENotFound)
+      | None => (s, out_err ENotFound)
+      end
+  | EScan _ _ _ _ => (s, out_ok VNone)
+  (* hashes *)
+  | HDelete k fs => spec_hdelete s k fs
+  | HExists k f => (s, out_ok (VB (match hget (fields_of s k) f with Some _ => true | None => false end)))
+  | HFields k => (s, out_ok (VU (map (fun p => VS (fst p)) (fields_of s k))))
+  | HGet k f => match hget (fields_of s k) f with
+                | Some v => (s, out_ok (VS v))
+                | None => (s, out_err ENotFound)
+                end
+  | HGetMany k fs => (s, out_ok (VU (map pair_rv (filter (fun p => str_in (fst p) fs) (fields_of s k)))))
+  | HIncr k f dl => spec_hincr s k f dl
+  | HIncrFloat k f dl parsed sumtext => spec_hincr_float s k f dl parsed sumtext
+  | HItems k => (s, out_ok (VU (map pair_rv (fields_of s k))))
+  | HLen k => (s, out_ok (VI (zlen (fields_of s k))))
+  | HScan _ _ _ _ => (s, out_ok VNone)
+  | HSet k f v => spec_hset s k f v
+  | HSetMany k items => spec_hset_many s k items
+  | HSetNX k f v => spec_hset_nx s k f v
+  | HValues k => (s, out_ok (VU (map (fun p => VS (snd p)) (fields_of s k))))
+  (* sorted sets *)
+  | ZAdd k v sc => spec_zadd s k v sc
+  | ZAddMany k items => spec_zadd_many s k items
+  | ZCount k lo hi => (s, out_ok (VI (zlen (filter (in_score lo hi) (zmembers s k)))))
+  | ZDelete k vs =>
+      match values_of vs with
+      | Some es => spec_zdelete_where s k (fun p => str_in (fst p) es)
+      | None => (s, out_err EValueType)
+      end
+  | ZDeleteRank k a b =>
+      let gone := rank_segment (zorder false (zmembers s k)) a b in
+      spec_zdelete_where s k (fun p => str_in (fst p) (map fst gone))
+  | ZDeleteScore k lo hi => spec_zdelete_where s k (in_score lo hi)
+  | ZGetRank k v desc =>
+      match bytes_of_value v with
+      | None => (s, out_err EValueType)
+      | Some e =>
+          match zget (zmembers s k) e with
+          | None => (s, out_err ENotFound)
+          | Some sc =>
+              (* the rank is the number of members sorted strictly before it *)
+              let before := filter (fun p => negb (String.eqb (fst p) e) &&
+                                             (if desc then zpair_le (e, sc) p else zpair_le p (e, sc)))
+                                   (zmembers s k) in
+              (s, out_ok (VL [VI (zlen before); VF sc]))
+          end
+      end
+  | ZGetScore k v =>
+      match bytes_of_value v with
+      | None => (s, out_err EValueType)
+      | Some e => match zget (zmembers s k) e with
+                  | Some sc => (s, out_ok (VF sc))
+                  | None => (s, out_err ENotFound)
+                  end
+      end
+  | ZIncr k v dl => spec_zincr s k v dl
+  | ZAlg inter g ks => (s, out_ok (VL (map zitem_rv (spec_zalg inter g s ks))))
+  | ZStore inter g dst ks => spec_zstore inter g s dst ks
+  | ZLen k => (s, out_ok (VI (zlen (zmembers s k))))
+  | ZRangeRank k a b desc =>
+      (s, out_ok (VL (map zitem_rv (rank_segment (zorder desc (zmembers s k)) a b))))
+  | ZRangeScore k lo hi desc off cnt =>
+      let rows := zorder desc (filter (in_score lo hi) (zmembers s k)) in
+      let rows := if 0 <? off then zdrop off rows else rows in
+      let rows := if 0 <? cnt then ztake cnt rows else rows in
+      (s, out_ok (VL (map zitem_rv rows)))
+  | ZScan _ _ _ _ => (s, out_ok VNone)
   end.
 
 (* a caller-managed transaction in the specification: all or nothing when the
